@@ -28,7 +28,7 @@ PROC_TIMEOUT_S = 20.0
 _real_open = builtins.open
 _real_os = {n: getattr(os, n) for n in
             ('rename', 'replace', 'mkdir', 'remove', 'unlink', 'rmdir', 'open', 'write', 'close',
-             '_exit', 'fork', 'waitpid', 'kill')}
+             '_exit', 'fork', 'waitpid', 'kill', 'link', 'symlink', 'truncate', 'fsync', 'fdatasync', 'getpid')}
 
 
 # --------------------------------------------------------------------------- child side
@@ -45,6 +45,7 @@ class _Child:
         self.n = 0
         self.inflight = []
         self.fired = False
+        self.fdpaths = {}     # fds opened for writing through os.open: fd -> (path, rel)
         self.logfd = _real_os['open'](os.path.join(ctl, 'effects'), os.O_WRONLY | os.O_CREAT | os.O_APPEND, 0o644)
 
     # -- logging (one os.write per record; never touches clock or PRNG)
@@ -171,7 +172,7 @@ class SimWriteFile:
     """A file opened for writing.  Bytes are held back until flush/close so the simulator,
     not libc buffering, decides what is on disk at a crash."""
 
-    def __init__(self, ch, path, rel, mode, encoding, errors, newline):
+    def __init__(self, ch, path, rel, mode, encoding, errors, newline, fd=None):
         self._ch = ch
         self.name = path
         self._rel = rel
@@ -187,8 +188,11 @@ class SimWriteFile:
             flags |= os.O_EXCL
         else:
             flags |= os.O_TRUNC
-        ch.effect('open', path=rel, mode=mode)
-        self._fd = _real_os['open'](path, flags, 0o666)
+        if fd is None:
+            ch.effect('open', path=rel, mode=mode)
+            self._fd = _real_os['open'](path, flags, 0o666)
+        else:
+            self._fd = fd       # opened (and logged) through os.open already
         self._buf = []      # pending bytes chunks
         self._total = 0
         self.closed = False
@@ -442,6 +446,9 @@ def _install(ch):
     def sim_open(file, mode='r', buffering=-1, encoding=None, errors=None, newline=None,
                  closefd=True, opener=None):
         if isinstance(file, int):
+            if file in ch.fdpaths and any(c in mode for c in 'wax') and '+' not in mode:
+                pth, rl = ch.fdpaths.pop(file)
+                return SimWriteFile(ch, pth, rl, mode, encoding, errors, newline, fd=file)
             return _real_open(file, mode, buffering, encoding, errors, newline, closefd, opener)
         rel = ch.rel(file)
         writing = any(c in mode for c in 'wax+')
@@ -511,6 +518,85 @@ def _install(ch):
         ch.effect('rmdir', path=rel)
         return _real_os['rmdir'](path, *a, **kw)
 
+    def sim_os_open(path, flags, mode=0o777, *a, **kw):
+        writing = flags & (os.O_WRONLY | os.O_RDWR | os.O_CREAT | os.O_TRUNC | os.O_APPEND)
+        if not writing or kw.get('dir_fd') is not None:
+            return _real_os['open'](path, flags, mode, *a, **kw)
+        rel = guard(path, 'os.open')
+        ch.effect('open', path=rel, mode='os.open')
+        fd = _real_os['open'](path, flags, mode, *a, **kw)
+        ch.fdpaths[fd] = (os.fspath(path), rel)
+        return fd
+
+    def sim_os_write(fd, data):
+        if fd in ch.fdpaths:
+            ch.effect('write', path=ch.fdpaths[fd][1], size=len(data))
+        return _real_os['write'](fd, data)
+
+    def sim_os_close(fd):
+        if fd in ch.fdpaths:
+            rel = ch.fdpaths[fd][1]
+            ch.effect('close', path=rel, size=-1)
+            ch.fdpaths.pop(fd, None)
+        return _real_os['close'](fd)
+
+    def sim_fsync(fd):
+        for f in ch.inflight:
+            if f._fd == fd:
+                f.flush()
+        return _real_os['fsync'](fd)
+
+    def sim_link(src, dst, *a, **kw):
+        rs, rd = guard(src, 'link'), guard(dst, 'link')
+        ch.effect('link', src=rs, dst=rd)
+        return _real_os['link'](src, dst, *a, **kw)
+
+    def sim_symlink(src, dst, *a, **kw):
+        rd = guard(dst, 'symlink')
+        ch.effect('symlink', src=os.fspath(src), dst=rd)
+        return _real_os['symlink'](src, dst, *a, **kw)
+
+    def sim_truncate(path, length):
+        if isinstance(path, int):
+            return _real_os['truncate'](path, length)
+        rel = guard(path, 'truncate')
+        ch.effect('truncate', path=rel, size=length)
+        return _real_os['truncate'](path, length)
+
+    os.open = sim_os_open
+    os.write = sim_os_write
+    os.close = sim_os_close
+    os.fsync = sim_fsync
+    os.fdatasync = sim_fsync
+    os.link = sim_link
+    os.symlink = sim_symlink
+    os.truncate = sim_truncate
+    os.getpid = lambda: 4242            # names derived from the pid must not differ between replays
+    try:
+        import tempfile
+
+        class _Names:
+            def __init__(self):
+                self.k = 0
+
+            def __iter__(self):
+                return self
+
+            def __next__(self):
+                self.k += 1
+                return 'tsim%04d' % self.k
+        tempfile._name_sequence = _Names()
+        import random as _random
+        _random.seed(0)
+        import uuid as _uuid
+        _cnt = [0]
+
+        def _uuid4():
+            _cnt[0] += 1
+            return _uuid.UUID(int=_cnt[0])
+        _uuid.uuid4 = _uuid4
+    except Exception:
+        pass
     os.rename = sim_rename
     os.replace = sim_replace
     os.mkdir = sim_mkdir
